@@ -5,7 +5,8 @@
 //! With B = |buffer| and T = wire size of the templates cached before/after the call:
 //!   (1) A' <= 1024*B + 8*L + 256 KiB     A' = A minus the listed per-packet remainder copies
 //!   (2) L  <= 1024*(B + T) + 64 KiB      (not judged while a zero-length-field template is cached)
-//!   (3) largest <= 64*B + 2*L + 4*T + 80 KiB
+//!   (3) largest <= 64*B + 2*L + 4*T + 16 KiB     (the additive part was 80 KiB while nom's count()
+//!       pre-allocation was a listed finding; since its repair no run needs any of it)
 //!   (4) scaling: the same shape at sizes n, 2n, 4n costs at most 6x (bytes and calls)
 //! The constants were calibrated on the repaired tree: legitimate decoding costs up to ~720
 //! heap bytes per input byte (one B-tree leaf per one-byte field) and L/B up to ~690.
@@ -141,6 +142,9 @@ pub fn deliver(sim: &mut Sim, d: &Delivery) -> u64 {
     if !zero_len {
         sim.stats.max("L_over_B_plus_T_x100", l * 100 / (b + t + 1));
     }
+    sim.stats.max("additive_part_needed_by_bound_1", a_net.saturating_sub(1024 * b + 8 * l));
+    sim.stats.max("additive_part_needed_by_bound_3", a.largest.saturating_sub(64 * b + 2 * l + 4 * t));
+    sim.stats.max("additive_part_needed_by_bound_2", l.saturating_sub(1024 * (b + t)));
     sim.stats.max("largest_single_allocation", a.largest);
     sim.stats.max("bytes_allocated_in_one_call", a.bytes);
 
@@ -180,7 +184,7 @@ pub fn deliver(sim: &mut Sim, d: &Delivery) -> u64 {
             sim.find("C15-result-not-bounded-by-bytes-received", d.ev, format!("one parse_bytes call on {} bytes (cached templates: {} wire bytes) retains {} bytes of result", b, t, l));
         }
     }
-    if a.largest > 64 * b + 2 * l + 4 * t + 80 * 1024 {
+    if a.largest > 64 * b + 2 * l + 4 * t + 16 * 1024 {
         sim.find(
             "C15-single-allocation-for-bytes-not-present",
             d.ev,
